@@ -44,14 +44,14 @@ type Meta struct {
 
 // Check accumulates the obligations of one run.
 type Check struct {
-	Meta   Meta
-	Tier   string
-	Obls   []Obligation
-	rules  map[string]*RuleStat
-	order  []string
-	start  time.Time
-	Extra  map[string]any
-	Notes  []string
+	Meta  Meta
+	Tier  string
+	Obls  []Obligation
+	rules map[string]*RuleStat
+	order []string
+	start time.Time
+	Extra map[string]any
+	Notes []string
 }
 
 // New starts a check.
